@@ -23,11 +23,16 @@ EXTENDS Naturals, Sequences, FiniteSets, TLC
 
 VARIABLES phase, sess, buf, opt
 cvars == <<phase, sess, buf, opt>>
+\* refs : the reference count behind makefile() (tlsrecordlayer._refCount): the connection object itself holds one
+\* reference from the start of a handshake, every file object made by makefile() holds one more; close() - of the
+\* connection or of a file object, they are the same call - gives one back and only the LAST one closes the TLS
+\* connection ("the connection will be not be closed until the connection object and all file objects have been closed")
+VARIABLE refs
 
 Results == {"ok", "bytes", "AbruptClose", "SocketError", "RemoteAlertFatal", "RemoteAlertWarning",
             "LocalAlert", "ClosedConnection", "ValueError"}
 
-InitWith(o) == phase = "new" /\ sess = "none" /\ buf = 0 /\ opt = o
+InitWith(o) == phase = "new" /\ sess = "none" /\ buf = 0 /\ opt = o /\ refs = 0
 
 \* a failed call always leaves the connection closed
 Kill(resumableAfter) ==
@@ -101,32 +106,52 @@ Close(env, res) ==
            /\ phase' = "closed" /\ sess' = sess /\ UNCHANGED <<buf, opt>>
 
 (***************************************************************************)
+(* makefile() and reference-counted closing.  File objects read and write  *)
+(* through recv_into()/send(), i.e. through Read and Write above.          *)
+(***************************************************************************)
+Makefile(res) == res = "ok" /\ refs' = refs + 1 /\ UNCHANGED cvars
+
+\* close() of the connection or of one of its file objects
+CloseRef(env, res) ==
+  \/ /\ phase # "open" /\ Close(env, res) /\ UNCHANGED refs                       \* `if not self.closed` - nothing happens
+  \/ /\ phase = "open" /\ refs > 1                                                 \* others still hold the connection:
+     /\ res = "ok" /\ refs' = refs - 1 /\ UNCHANGED cvars                           \* no alert is sent, nothing is closed
+  \/ /\ phase = "open" /\ refs <= 1 /\ Close(env, res) /\ refs' = refs - 1          \* the last reference closes
+
+\* what the other calls do to the count: a handshake on a connection that is not open starts over with one reference
+RefsAfter(api) == IF api = "handshake" /\ phase # "open" THEN refs' = 1 ELSE UNCHANGED refs
+
+(***************************************************************************)
 (* The session object is shared with the connections that resumed it (and   *)
 (* with the session cache): when one of them fails fatally the session is   *)
 (* dead for all of them - nothing this connection does later revives it.    *)
 (***************************************************************************)
 SiblingFails ==
   /\ sess' = IF sess = "none" THEN "none" ELSE "dead"
-  /\ UNCHANGED <<phase, buf, opt>>
+  /\ UNCHANGED <<phase, buf, opt, refs>>
 
 (***************************************************************************)
 (* Model-checking view: the environment and the caller choose freely        *)
 (***************************************************************************)
 Envs == {"ok", "data", "close_notify", "warning", "fatal", "eof", "reset", "epipe", "fatalsend"}
 MCInit == \E cs \in BOOLEAN, ia \in BOOLEAN : InitWith([closeSocket |-> cs, ignoreAbrupt |-> ia])
-VARIABLE last      \* last call: [api, env, res, pre] (observation variable for the properties)
+VARIABLE last      \* last call: [api, env, res, pre, prefs] (observation variable for the properties)
+Last(api, env, res) == last' = [api |-> api, env |-> env, res |-> res, pre |-> phase, prefs |-> refs]
 MCNext == \E env \in Envs, res \in Results :
-   \/ Handshake(env, res) /\ last' = [api |-> "handshake", env |-> env, res |-> res, pre |-> phase]
-   \/ \E a \in 0..1, n \in 0..2 : Read(env, a, res, n) /\ last' = [api |-> "read", env |-> env, res |-> res, pre |-> phase]
-   \/ Write(env, res) /\ last' = [api |-> "write", env |-> env, res |-> res, pre |-> phase]
-   \/ Close(env, res) /\ last' = [api |-> "close", env |-> env, res |-> res, pre |-> phase]
-   \/ SiblingFails /\ last' = [api |-> "sibling", env |-> "-", res |-> "-", pre |-> phase]
-MCInit0 == MCInit /\ last = [api |-> "-", env |-> "-", res |-> "-", pre |-> "-"]
-MCSpec == MCInit0 /\ [][MCNext]_<<cvars, last>>
+   \/ Handshake(env, res) /\ RefsAfter("handshake") /\ Last("handshake", env, res)
+   \/ \E a \in 0..1, n \in 0..2 : Read(env, a, res, n) /\ RefsAfter("read") /\ Last("read", env, res)
+   \/ Write(env, res) /\ RefsAfter("write") /\ Last("write", env, res)
+   \/ CloseRef(env, res) /\ Last("close", env, res)
+   \/ Makefile(res) /\ Last("makefile", env, res)
+   \/ SiblingFails /\ Last("sibling", "-", "-")
+Last0 == [api |-> "-", env |-> "-", res |-> "-", pre |-> "-", prefs |-> 0]
+MCInit0 == MCInit /\ last = Last0
+avars == <<cvars, refs, last>>
+MCSpec == MCInit0 /\ [][MCNext]_avars
 
 \* ---- the clauses of C17 as properties of the contract
 \* truncation is never mistaken for end of data
-BufBound == buf <= 2
+BufBound == buf <= 2 /\ refs <= 3
 TruncationNotEOF == (last.api = "read" /\ last.pre = "open" /\ last.env = "eof" /\ ~opt.ignoreAbrupt) => last.res = "AbruptClose"
 \* a failure other than an orderly close never leaves a resumable session
 NoResumeAfterFatal == (last.res \in {"AbruptClose", "SocketError", "RemoteAlertFatal", "RemoteAlertWarning", "LocalAlert"}
@@ -134,9 +159,16 @@ NoResumeAfterFatal == (last.res \in {"AbruptClose", "SocketError", "RemoteAlertF
                       => sess # "resumable"
 NoCompleteAfterFault == (last.api = "handshake" /\ last.res \notin {"ok", "ValueError"}) => phase = "closed"
 FatalAlertSurfaced == (last.env = "fatal" /\ ((last.api = "read" /\ last.pre = "open") \/ (last.api = "handshake" /\ last.pre # "open"))) => last.res = "RemoteAlertFatal"
-CleanCloseKeepsResumable == [][(last'.env = "close_notify" /\ last'.api = "read" /\ sess = "resumable" /\ phase = "open") => sess' = "resumable"]_<<cvars, last>>
-ClosedStaysClosed == [][(phase = "closed" /\ last'.api # "handshake") => phase' = "closed"]_<<cvars, last>>
+CleanCloseKeepsResumable == [][(last'.env = "close_notify" /\ last'.api = "read" /\ sess = "resumable" /\ phase = "open") => sess' = "resumable"]_avars
+ClosedStaysClosed == [][(phase = "closed" /\ last'.api # "handshake") => phase' = "closed"]_avars
 \* a session that was invalidated is never resumable again through this connection (only a new handshake makes a new one)
-DeadStaysDead == [][(sess = "dead" /\ last'.api # "handshake") => sess' = "dead"]_<<cvars, last>>
+DeadStaysDead == [][(sess = "dead" /\ last'.api # "handshake") => sess' = "dead"]_avars
 WriteAfterCloseRaises == (last.api = "write" /\ last.res = "ok") => phase = "open"
+\* ---- makefile(): the connection stays open, untouched, as long as somebody holds it; the last close closes it
+OpenHasHolder == phase = "open" => refs >= 1
+HeldOpenWhileReferenced == [][(phase = "open" /\ refs > 1 /\ last'.api = "close")
+                              => (phase' = "open" /\ sess' = sess /\ buf' = buf /\ last'.res = "ok")]_avars
+LastCloseCloses == (last.api = "close" /\ last.pre = "open" /\ last.prefs <= 1) => phase = "closed"
+\* only close() gives a reference back, and only one
+RefsOnlyDropOnClose == [][refs' < refs => (last'.api = "close" /\ refs' = refs - 1) \/ last'.api = "handshake"]_avars
 =============================================================================
